@@ -252,6 +252,8 @@ struct Plan {
     responses: Vec<(Vec<u8>, bool)>,
     /// index of the response to alter, and how (0 MAC flip, 1 body flip)
     alter: Option<(usize, u8)>,
+    /// a second altered response (same encoding)
+    alter2: Option<(usize, u8)>,
     /// the upstream composes (= signs) the request once per entry, after
     /// setting this message ID, like a datagram transport does for every
     /// retransmission; empty = compose once, ID untouched
@@ -281,7 +283,7 @@ fn build_wire(plan: &Plan, signed_req: &[u8]) -> Vec<Vec<u8>> {
             seq.unsigned(m);
             m.clone()
         };
-        if let Some((j, how)) = plan.alter {
+        for (j, how) in plan.alter.iter().chain(plan.alter2.iter()).copied() {
             if j == i {
                 if how == 0 && *signed {
                     let l = w.len();
@@ -377,7 +379,7 @@ fn run_client_wrapper(u: &mut Unstructured, ctx: &mut Ctx) -> CaseResult {
     }
     // responses
     let mut responses = vec![];
-    let n = if multi { 1 + pick(u, 6) } else { 1 };
+    let n = if multi { 1 + pick(u, 8) } else { 1 };
     for i in 0..n {
         let signed = i == 0 || !multi || !chance(u, 60);
         responses.push((tiny_message(id, 0x8400, byte(u), i % 3), signed));
@@ -389,7 +391,11 @@ fn run_client_wrapper(u: &mut Unstructured, ctx: &mut Ctx) -> CaseResult {
     let answer_composition = if n_comp >= 2 && chance(u, 50) { Some(pick(u, n_comp)) } else { None };
     let log = Arc::new(Mutex::new(vec![]));
     let composed = Arc::new(Mutex::new(vec![]));
-    let plan = Plan { server: ks.rk.clone(), mac_len: ks.eff_sign(), responses: responses.clone(), alter, compose_ids: compose_ids.clone(), answer_composition, log: log.clone(), composed: composed.clone() };
+    // how many more get_response() calls the caller makes after the first error, and a second forged message
+    let n_continue = [0usize, 0, 1, 2, 3, 5, 8][pick(u, 7)];
+    let alter2 = if n >= 2 && chance(u, 110) { Some((pick(u, n), pick(u, 2) as u8)) } else { None };
+    let alter2 = if alter2.map(|a| a.0) == alter.map(|a| a.0) { None } else { alter2 };
+    let plan = Plan { server: ks.rk.clone(), mac_len: ks.eff_sign(), responses: responses.clone(), alter, alter2, compose_ids: compose_ids.clone(), answer_composition, log: log.clone(), composed: composed.clone() };
     if n_comp >= 2 {
         ctx.class("client-wrapper/request-composed-again");
     }
@@ -408,7 +414,14 @@ fn run_client_wrapper(u: &mut Unstructured, ctx: &mut Ctx) -> CaseResult {
             let conn = ctsig::Connection::new(key.clone(), MockUpMulti(plan));
             let rm = RequestMessageMulti::new(Message::from_octets(req.clone()).unwrap()).unwrap();
             let mut g = SendRequestMulti::send_request(&conn, rm);
-            loop {
+            // The caller keeps asking after an error (n_continue more
+            // times) but not beyond the end of the upstream stream.
+            let mut more = n_continue;
+            let mut had_err = false;
+            for call in 0..=n {
+                if had_err && call >= n {
+                    break; // no end-of-stream call on a request that already failed
+                }
                 match g.get_response().await {
                     Ok(Some(m)) => res.push(Ok(Some(m.as_slice().to_vec()))),
                     Ok(None) => {
@@ -417,20 +430,33 @@ fn run_client_wrapper(u: &mut Unstructured, ctx: &mut Ctx) -> CaseResult {
                     }
                     Err(e) => {
                         res.push(Err(format!("{e:?}")));
-                        break;
+                        had_err = true;
+                        if more == 0 || call + 1 >= n {
+                            break;
+                        }
+                        more -= 1;
                     }
-                }
-                if res.len() > 20 {
-                    break;
                 }
             }
         } else {
             let conn = ctsig::Connection::new(key.clone(), MockUp(plan));
             let rm = RequestMessage::new(Message::from_octets(req.clone()).unwrap()).unwrap();
             let mut g = SendRequest::send_request(&conn, rm);
-            match g.get_response().await {
-                Ok(m) => res.push(Ok(Some(m.as_slice().to_vec()))),
-                Err(e) => res.push(Err(format!("{e:?}"))),
+            let mut more = n_continue.min(3);
+            loop {
+                match g.get_response().await {
+                    Ok(m) => {
+                        res.push(Ok(Some(m.as_slice().to_vec())));
+                        break;
+                    }
+                    Err(e) => {
+                        res.push(Err(format!("{e:?}")));
+                        if more == 0 {
+                            break;
+                        }
+                        more -= 1;
+                    }
+                }
             }
         }
         res
@@ -459,21 +485,24 @@ fn run_client_wrapper(u: &mut Unstructured, ctx: &mut Ctx) -> CaseResult {
         ctx.class("client-wrapper/answer-to-last-of-several-compositions");
     }
 
-    // expected sequence of results
+    // Expected sequence of results up to and including the first rejection
+    // (reference model of the chain: a signed message is rejected when it
+    // was altered or an unsigned message before it was; the stream must end
+    // with a signed message).
+    let is_altered = |i: usize| alter.map(|a| a.0 == i).unwrap_or(false) || alter2.map(|a| a.0 == i).unwrap_or(false);
     let mut want: Vec<Result<Option<usize>, ()>> = vec![];
     let mut dirty = stale;
     let mut failed = false;
     for (i, (_, signed)) in responses.iter().enumerate() {
-        let altered = alter.map(|a| a.0 == i).unwrap_or(false);
         if *signed {
-            if altered || dirty {
+            if is_altered(i) || dirty {
                 want.push(Err(()));
                 failed = true;
                 break;
             }
             want.push(Ok(Some(i)));
         } else {
-            if altered {
+            if is_altered(i) {
                 dirty = true;
             }
             want.push(Ok(Some(i)));
@@ -486,15 +515,24 @@ fn run_client_wrapper(u: &mut Unstructured, ctx: &mut Ctx) -> CaseResult {
             want.push(Err(()));
         }
     }
-    let show = || format!("pattern {:?} alter {:?}\ngot {:?}", responses.iter().map(|r| r.1).collect::<Vec<_>>(), alter, results.iter().map(|r| r.as_ref().map(|o| o.as_ref().map(|m| m.len())).map_err(|e| e.clone())).collect::<Vec<_>>());
-    vensure!(results.len() == want.len(), "client-wrapper:number-of-results", "{}", show());
+    let show = || format!("pattern {:?} alter {:?} {:?}, {} more calls after an error\ngot {:?}", responses.iter().map(|r| r.1).collect::<Vec<_>>(), alter, alter2, n_continue, results.iter().map(|r| r.as_ref().map(|o| o.as_ref().map(|m| m.len())).map_err(|e| e.clone())).collect::<Vec<_>>());
+    vensure!(results.len() >= want.len(), "client-wrapper:number-of-results", "{}", show());
+    // Whatever is handed to the caller has been through verification, which
+    // strips the TSIG record (module documentation): a delivered message that
+    // still carries one was never verified.
+    for (i, g) in results.iter().enumerate() {
+        if let Ok(Some(m)) = g {
+            let (_, t) = rs::locate_tsigs(m);
+            vensure!(t.is_empty(), if i < want.len() { "client-wrapper:delivered-message-still-carries-tsig" } else { "client-wrapper:delivered-message-still-carries-tsig-after-earlier-rejection" }, "result {i}\n{}", show());
+        }
+    }
     for (i, (g, w)) in results.iter().zip(&want).enumerate() {
         match (g, w) {
             (Ok(Some(m)), Ok(Some(j))) => {
                 let pre = &responses[*j].0;
                 if responses[*j].1 {
                     check_restored("client-wrapper", m, pre)?;
-                } else if alter.map(|a| a.0 == *j).unwrap_or(false) {
+                } else if is_altered(*j) {
                     // altered unsigned message is handed on as received
                 } else {
                     vensure!(m == pre, "client-wrapper:unsigned-message-changed", "{}", show());
@@ -513,6 +551,29 @@ fn run_client_wrapper(u: &mut Unstructured, ctx: &mut Ctx) -> CaseResult {
                 answer_composition,
                 show()
             ),
+        }
+    }
+    // After the first rejection the chain of MACs is broken: the rejected
+    // message was the server's own (altered in transit), so everything the
+    // server signs later builds on a MAC the client never accepted. Once
+    // failed, stay failed: no later message that carries a TSIG - forged or
+    // genuinely signed - may be handed to the caller. (Unsigned messages are
+    // not judged here: RFC 8945 §5.3.1 lets a verifier take them
+    // provisionally; they were covered above by "no TSIG in what is
+    // delivered".)
+    if results.len() > want.len() {
+        ctx.class("client-wrapper/continued-after-rejection");
+        for (k, g) in results.iter().enumerate().skip(want.len()) {
+            // multi: the k-th call consumed the k-th upstream message; single: the same message again
+            let idx = if multi { k } else { 0 };
+            match (responses.get(idx), g) {
+                (Some((_, true)), Ok(_)) => vfail!("client-wrapper:signed-message-accepted-after-earlier-rejection", "call {k}\n{}", show()),
+                (Some((_, true)), Err(e)) => {
+                    vensure!(e.contains("Authentication"), "client-wrapper:error-is-not-authentication", "{e}");
+                    ctx.class("client-wrapper/signed-message-after-rejection-rejected");
+                }
+                _ => {}
+            }
         }
     }
     if !failed && want.iter().all(|w| w.is_ok()) {
